@@ -3,6 +3,7 @@ package main
 import (
 	"fmt"
 	"github.com/ucan-wg/go-ucan/pkg/args"
+	"github.com/ucan-wg/go-ucan/pkg/meta"
 	"runtime"
 	"sort"
 	"strings"
@@ -221,6 +222,40 @@ var concOps = []concOp{
 			last, keys = keys[len(keys)-1], keys[:len(keys)-1]
 		}
 		return fmt.Sprint(err == nil, strings.Join(keys, ","), last == mine)
+	}},
+	{"meta_clone_adds", func(fx *concFixture) string {
+		// a writeable clone of a token's metadata (and of its arguments) is the caller's own: additions to it
+		// are seen by nobody else, and its key order can be changed without changing the token's
+		mine := fmt.Sprintf("extra-%d", hookSeq.Add(1))
+		var out []string
+		for _, mr := range []meta.ReadOnly{fx.inv.Meta(), fx.dlgs[0].Meta()} {
+			cl := mr.WriteableClone()
+			if err := cl.Add(mine, 1); err != nil {
+				return "err"
+			}
+			runtime.Gosched()
+			var keys []string
+			for k := range cl.Iter() {
+				keys = append(keys, k)
+			}
+			last := ""
+			if len(keys) > 0 {
+				last, keys = keys[len(keys)-1], keys[:len(keys)-1]
+			}
+			v, err := cl.GetInt64(mine)
+			out = append(out, fmt.Sprint(strings.Join(keys, ","), last == mine, v, err))
+		}
+		ac := fx.inv.Arguments().WriteableClone()
+		if err := ac.Add(mine, 1); err != nil {
+			return "err"
+		}
+		runtime.Gosched()
+		var keys []string
+		for k := range ac.Iter() {
+			keys = append(keys, k)
+		}
+		out = append(out, fmt.Sprint(strings.Join(keys[:len(keys)-1], ","), keys[len(keys)-1] == mine))
+		return strings.Join(out, "|")
 	}},
 	{"to_sealed", func(fx *concFixture) string {
 		b, _, err := fx.inv.ToSealed(fx.iss.priv)
